@@ -134,6 +134,10 @@ def record(entity, with_arrays: bool = True) -> dict:
             rec["arrays"]["options"] = canon(entity.options)
         rec["children"] = sorted(ustr(child.uid) for child in children_of(entity))
         pgs = getattr(entity, "property_groups", None)
+        # (an object's list of children holds its property groups too: exactly those)
+        pg_kids = sorted(ustr(c.uid) for c in getattr(entity, "children", []) if isinstance(c, PropertyGroup))
+        if kind == "object" and not type(entity).__name__.startswith("Concatenated") and pg_kids != sorted(ustr(p.uid) for p in (pgs or [])):
+            rec["pg_children"] = pg_kids
         if pgs:
             for pg in pgs:
                 rec["pgs"][ustr(pg.uid)] = {
